@@ -190,6 +190,12 @@ impl<N, const NS: usize, const NE: usize> InteractionModelState<N, NS, NE> {
         self.start_up_emitted.lock(|flag| flag.set(true));
     }
 
+    /// Verification hook: the subscriptions table.
+    #[cfg(feature = "verif")]
+    pub fn verif_subscriptions(&self) -> &Subscriptions<NS> {
+        &self.subscriptions
+    }
+
     /// Reset this state's persisted contents to factory defaults - the
     /// events-queue epoch, the network store and (if compiled in) the persisted
     /// subscriptions - removing them from `kv` using the scratch buffer
